@@ -29,6 +29,11 @@ func init() {
 		Prepare: prepareAll,
 		Select: []Selector{
 			{Units: `parser/spec\.Spec\.LALRParsingTable$`},
+			// what reaches the table builder: the directive actions (associativity as written, levels in source order) and the
+			// memo of synthesised names a rule handle relies on (hash of a list of alternatives independent of their order)
+			{Units: `parser/spec\.Parse\$1$`, Names: `#post\[(c1[2-4]-|directive-appends-one|others-keep-levels)`},
+			{Units: `parser/spec\.SymbolTable\.(AddPrecedence|Precedences)$`},
+			{Units: `parser/spec\.(hashStrings|eqStrings|Strings\.Contains)$`},
 			{Units: `generate/golang\.generator\.generateParser$`, Kinds: nonSafety},
 			{Units: `generate/golang\.Generate$`, Kinds: nonSafety},
 		},
